@@ -5,6 +5,7 @@ import Driver.OpsFs
 import Driver.OpsPar
 import Driver.OpsSql
 import Driver.OpsSort
+import Driver.OpsJoin
 
 open Lean Df.Codec
 
@@ -24,6 +25,7 @@ def ops : List (String × (Json → R Json)) :=
    ("sqlhist", Df.Ops.opSqlHist),
    ("numkey", Df.Ops.opNumKey),
    ("sort", Df.Ops.opSort),
+   ("join", Df.Ops.opJoin),
    ("ping", fun j => do return Json.mkObj [("ok", encPkg (← decPkg (← j.getObjVal? "pkg")))])]
 
 def handle (line : String) : String :=
